@@ -217,12 +217,20 @@ theorem cross_entropy_exact (xs : List ℝ) (hne : xs ≠ []) (m xl : ℝ) (hm :
 /-! ### the model kernels, instantiated at ℝ, evaluate these formulas -/
 
 /-- `softmaxForward` at ℝ: every entry is `exp(x − M)/Σ exp(· − M)` with `M` the maximum of its fibre,
-    hence (by `softmax_shift_exact`) the mathematical softmax. -/
+    hence (by `softmax_shift_exact`) the mathematical softmax.  On a 0-d operand with `dim` `0` / `−1` (the only
+    other accepted call) the fibre is the element itself: `M = x`, the result is `exp(x − x)/exp(x − x)`. -/
 theorem softmax_model_formula (a y : NDArray ℝ) (axis : Int) (h : softmaxForward a axis = some y) :
+    (a.shape = [] ∧ (axis = 0 ∨ axis = -1) ∧
+      y = ⟨[], [Real.exp (a.get [] - a.get []) / Real.exp (a.get [] - a.get [])]⟩) ∨
     ∃ ax, normAxis a.shape.length axis = some ax ∧ y.shape = a.shape ∧
       ∀ i, validIdx a.shape i →
         y.get i = Real.exp (a.get i - fibreMax a ax i) / fibreSum (fun j => Real.exp (a.get j - fibreMax a ax j)) a.shape ax i := by
   unfold softmaxForward at h
+  by_cases h0 : zeroDimAxis a.shape axis
+  · rw [if_pos h0] at h
+    exact Or.inl ⟨h0.1, h0.2, (Option.some.inj h).symm⟩
+  rw [if_neg h0] at h
+  right
   cases hax : normAxis a.shape.length axis with
   | none => simp [hax] at h
   | some ax =>
@@ -231,5 +239,8 @@ theorem softmax_model_formula (a y : NDArray ℝ) (axis : Int) (h : softmaxForwa
     refine ⟨ax, rfl, rfl, fun i hi => ?_⟩
     rw [get_ofFn _ _ _ hi]
     rfl
+
+/-- non-vacuity of the 0-d case -/
+example : softmaxForward (⟨[], [3]⟩ : NDArray ℝ) (-1) = some ⟨[], [Real.exp (3 - 3) / Real.exp (3 - 3)]⟩ := rfl
 
 end Props.C09
